@@ -19,6 +19,25 @@ def load():
     return mod
 
 
+# rules added after the first build round (DESIGN.md 11.4), by technique
+EXTRA = {
+    "C01": "; who-may-write check that conversion routes keep no state",
+    "C02": "; CFG must-pass-through of the default-value conversion; shape classification of every term _ConvertWithExp can return",
+    "C03": "; exhaustive classification of the returns of the database operations; origin analysis of the result quantity under dominating facts",
+    "C04": "; exhaustive classification of the returns of the database operations; entry-path terms of the exponent merge and of the per-unit accumulation",
+    "C05": "; CFG must-pass-through over every entry of a derived request; accumulation recogniser for the joined exponents",
+    "C07": "; ordered-comparison check of equality and intern keys; key-component analysis of cache hits",
+    "C10": "; truth-table evaluation of the container-kind predicate; truth-context scan for the values container; dominance of the numpy dispatch over element-wise pairing",
+    "C11": "; sibling agreement of the CreateCopy routes on forwarding the keyword arguments",
+    "C13": "; scan for in-place (augmented) updates of parameters in conversion closures and routes",
+    "C14": "; CFG must-pass-through of the valid-units validation before registration",
+    "C15": "; CFG must-pass-through of the memo clear after a registry write; ordered intern keys",
+    "C17": "; def-use roles of the template coverage check; origin analysis of the notified system",
+    "C18": "; guard facts of Fraction.__eq__; term shape of what the parser hands to the constructor",
+    "C20": "; dominating exponent-1 fact of the simple-quantity shortcut; truth-context scan of __str__",
+}
+
+
 def main():
     claims = load()
     checks = []
@@ -34,7 +53,7 @@ def main():
                 "engine": "sa",
                 "level_claimed": {"category": "other", "text": c["level"], "design_ref": c.get("design_ref", "DESIGN.md §5 " + pid)},
                 "level_note": c["note"],
-                "technique": c["technique"],
+                "technique": c["technique"] + EXTRA.get(pid, "") + "; all on source normalised before analysis (AST inlining of helpers that are new w.r.t. the baseline, keyword/positional and super() call normalisation, desugaring of conditional expressions), with def-use terms and dominating facts instead of text matching",
             }
         )
     manifest = {
